@@ -31,6 +31,26 @@ CHECKS = {
          "Generated-schedule search: rapid draws sequences of batches of 1..16 goroutines, each running decode+render jobs (canonical dump of every value of the tree; dv, -V and torepr through the whole CLI, per-format options set/unset, failing decodes, the same job many times) with their own Interp on the shared registry, built with -race; every result hash must equal the job's first sequential run, sequential permutations must not change results, and a per-run sample is compared with a lone run in a fresh process. The harness does not own the Go scheduler: interleavings are sampled by repetition.",
          "Trusted: sha256 of the canonical dump, Go's race detector. Schedule-dependent failures may not replay deterministically (replay re-runs 10 times).",
          "DESIGN.md 2/C18"),
+ "C03": ("structural invariants over corpus/mutant trees + rapid-generated decoder programs against a reference interpreter",
+         "Generated-case search with two oracles: (A) generic invariants (range inside buffer, compound hull over same-buffer children, unique names / ByName = children, start order, array indexes, parent links) on every value of corpus decodes (format-balanced), sampled mutants and forced decodes run in a crash-isolated child process; (B) a DSL of decoder programs over the public decode API (struct/array/framed/limited/range/seek/nested format/nested buffer/root bitbuf/synthetic values/errors) drawn by rapid, run by fq and by a reference interpreter that predicts the whole tree, compared exactly.",
+         "Trusted: lib/treegen's reference interpreter (it follows a start-up probe of two fq behaviours that were repaired during this work) and tree walk. Struct child indexes are not asserted (the statement does not claim them).",
+         "DESIGN.md 2/C03"),
+ "C04": ("exhaustive small-buffer enumeration of ranges.Gaps vs a bitmap reference + coverage invariants over generated and corpus trees",
+         "ranges.Gaps is enumerated exhaustively for totals <= 12 bits and <= 3 ranges (1.88M cells) and sampled by rapid beyond, against a bitmap reference; on decoded trees (corpus, mutants, generated decoder programs, failed decodes) the leaves + gap fields of every gap-filled buffer must cover every bit exactly, gaps must not overlap decoded leaves of the same decode, and gap content equals the buffer bits.",
+         "Trusted: the bitmap reference, lib/treegen. The one-bit tolerance of ranges.Gaps is a listed known finding (pinned by ranges_test.go) and excluded by signature.",
+         "DESIGN.md 2/C04"),
+ "C09": ("rapid-generated binary expression trees against a reference bit-string evaluator + model-free laws",
+         "Generated-case search: expression trees (depth<=5) over strings, integers, big integers, nested arrays, decode values and {tobits, tobytes, tobits(n), tobytes(n), tobitsrange, tobytesrange, index, slice with negative/out-of-range bounds, .bits/.bytes, tonumber, tostring, explode, to_hex, length, .size/.start/.stop/.unit}, 24 trees per Eval, compared with a reference evaluator that marks each result ok / must-fail / unspecified; plus laws (split/concat, pad, number round trip).",
+         "Trusted: the reference model in props/c09. For byte-unit binaries with a partial trailing byte only totality and the laws are asserted (docs are silent).",
+         "DESIGN.md 2/C09"),
+ "C15": ("rapid-generated container files written by Go stdlib / python stdlib writers, decoded through jq, + exhaustive single-byte corruption sweeps",
+         "Generated-input search with independent writers: compress/gzip, archive/zip, archive/tar, image/png (+ hand-written chunks incl. zTXt), image/gif, a hand-written WAV writer and (second family) python3 gzip/zipfile/tarfile/wave/zlib/bz2 produce files from rapid-drawn contents together with a manifest of what was stored; fq's decode tree must report those names, sizes, header fields, payload bytes and 'valid' checksums; every single-byte corruption inside a checksummed region (sampled; exhaustive on tiny files) must give an error, an invalid checksum, or a provably unchanged payload.",
+         "Trusted: the stdlib writers and the manifests in lib/containers. fq does not validate tar header checksums, zip CRCs or gzip ISIZE: for those only reporting is checked. gzip flag order and gif local colour tables are listed known findings.",
+         "DESIGN.md 2/C15"),
+ "C16": ("rapid-generated values through independent wire encoders with per-node wire-variant choice, truncation sweep, trailing data",
+         "Generated-input search: JSON-like values (full int64/uint64 range, floats incl. subnormals, unicode, byte strings, empty containers) are encoded by hand-written encoders (msgpack, cbor, bson, bencode, BER; JSON/JSONL/YAML/TOML/XML/CSV text emitters) that choose a wire variant per node (all width forms, definite/indefinite, chunking, float sizes); torepr/tovalue of fq's decode must equal the source; every strict prefix of a prefix-free encoding must be a decode error; trailing bytes must be an error (text) or a top-level gap (binary). A deterministic enumeration covers every width/length form at its boundaries.",
+         "Trusted: lib/enc (pinned to RFC 8949 appendix A, spec examples, encoding/asn1, encoding/json). Out of domain: cbor tags, bson exotic types, msgpack timestamps, BER tags >= 31.",
+         "DESIGN.md 2/C16"),
 }
 
 NOT_YET = {}
